@@ -189,6 +189,22 @@ func randAnnotations(c *core.Ctx) (map[string]any, []string) {
 		m["count"] = 1 + c.Rng.Intn(1000)
 		types["count"] = true
 	}
+	if c.Rng.Intn(40) == 0 {
+		// a title line longer than the 4 KiB / 64 KiB buffers of the usual line readers: what a
+		// dereplicated record with a few hundred samples carries
+		target := []int{3900, 4096, 4200, 9000, 70000}[c.Rng.Intn(5)]
+		if c.Rng.Intn(2) == 0 {
+			mi := map[string]int{}
+			for j := 0; j*18 < target; j++ {
+				mi[fmt.Sprintf("sample_%05d", j)] = 1 + c.Rng.Intn(999)
+			}
+			m["merged_sample"] = mi
+			types["long-map"] = true
+		} else {
+			m["long_text"] = strings.Repeat("lorem ipsum ", target/12)
+			types["long-string"] = true
+		}
+	}
 	var tl []string
 	for t := range types {
 		tl = append(tl, t)
